@@ -442,7 +442,7 @@ def check_jitter(rep, crate):
     added = P(1)
     table = {
         '<arrival::sporadic::Sporadic as arrival::ArrivalBound>::clone_with_jitter':
-            ('upd', P(0), (('jitter', T.add(P(0, 'jitter'), added)),)),
+            T.struct('arrival::sporadic::Sporadic', {'jitter': T.add(P(0, 'jitter'), added), 'min_inter_arrival': P(0, 'min_inter_arrival')}),
         '<arrival::propagated::Propagated<T> as arrival::ArrivalBound>::clone_with_jitter':
             T.struct('arrival::propagated::Propagated', {'input_event_model': P(0, 'input_event_model'),
                                                          'response_time_jitter': T.add(P(0, 'response_time_jitter'), added)}),
